@@ -5,8 +5,8 @@ import (
 	"context"
 	"fmt"
 	"io"
-	"strings"
 	"slices"
+	"strings"
 	"testing"
 
 	"github.com/c2FmZQ/ech"
